@@ -126,6 +126,15 @@ theorem v2c_C15_reachable_queries_no_ub (ops : List Op) (hapi : ops.all apiOp = 
   obtain ⟨_, _, hI, _⟩ := inv_run inv_empty ops (all_memOp_of_apiOp hapi)
   exact queryG_defined _ hI.ch.rk hI.ch.re (forestOk_of_plInv hI.pl) q u
 
+/-- **The whole public alphabet** of `database` / `crate` over this model: mutations and queries
+interleaved in any order, with any arguments, from the empty library — every outcome is a value or an
+exception.  `memCall`: the mutations are public-API operations or additions of entries of OTHER databases
+(what other software sharing the library does); `crate::add_tracks` is a list of `addTrack`; `uuid`,
+`version_name`, `directory`, `verify`, `crate::db` have no model content (outcome `ok`; tie only). -/
+theorem v2c_C15_all_calls_no_ub (cs : List Call) (hm : cs.all memCall = true) :
+    ∀ r ∈ callOutcomes Db.empty cs, ∀ u, r ≠ .ub u :=
+  fun r hr u => callOutcomes_defined cs inv_empty hm r hr u
+
 /-- The restriction to the public API is needed: at table level (`playlist_entity_table`, reachable
 only by code that bypasses `crate`) entries with a non-positive track id are not re-linked by the
 schema's delete trigger, and listing the playlist then dereferences a missing tail. -/
